@@ -34,10 +34,21 @@ TrQ(I, v, q, a) ==
   CASE I.family = "lifted"   -> {ArcOf(I, v, e, a)[1] : e \in {f \in q : ArcOf(I, v, f, a)[1] # 0}}
     [] I.family = "knapsack" -> IF a = 1 THEN q - I.weight[v + 1] ELSE q
     [] I.family = "setpack"  -> IF a = 1 THEN q \ (ToSet(I.adj[v + 1]) \cup {v + 1}) ELSE q \ {v + 1}
-CoQ(I, v, q, a) ==
+\* potentials ("deferred rewards", harness: Model::with_potentials): I.pot[d + 1][e], absent or empty = none.  Every arc cost is
+\* shifted by Phi(target) - Phi(source), the initial value I.v0 already contains Phi(root), terminal potentials are 0: complete
+\* solutions keep their value, sub-problem values are shifted by Phi(state), and the relaxation of the model is not the identity:
+\* relax(src, dst, merged, dec, cost) = cost + Phi(merged) - Phi(dst)
+HasPot(I) == "pot" \in DOMAIN I /\ Len(I.pot) > 0
+Phi(I, d, q) == IF ~HasPot(I) THEN 0
+                ELSE IF I.family = "lifted" THEN FoldSet(LAMBDA e, acc : acc + I.pot[d + 1][e], 0, q)
+                ELSE IF I.family = "knapsack" THEN I.pot[d + 1][(q % 3) + 1]
+                ELSE 0
+CoQ0(I, v, q, a) ==
   CASE I.family = "lifted"   -> Max({ArcOf(I, v, e, a)[2] : e \in {f \in q : ArcOf(I, v, f, a)[1] # 0}})
     [] I.family = "knapsack" -> IF a = 1 THEN I.profit[v + 1] ELSE 0
     [] I.family = "setpack"  -> IF a = 1 THEN I.wv[v + 1] ELSE 0
+CoQ(I, v, q, a) == IF ~HasPot(I) THEN CoQ0(I, v, q, a) ELSE CoQ0(I, v, q, a) + Phi(I, v + 1, TrQ(I, v, q, a)) - Phi(I, v, q)
+RelaxCost(I, d, dstQ, mergedQ, cost) == cost + Phi(I, d, mergedQ) - Phi(I, d, dstQ)
 \* long arcs: an element is neutral at v when its only decision is 0, leading to itself at cost 0
 NeutralE(I, v, e) == \A a \in 0..(I.m - 1) : IF a = 0 THEN ArcOf(I, v, e, a) = <<e, 0>> ELSE ArcOf(I, v, e, a)[1] = 0
 Impacted(I, v, q) ==
@@ -141,6 +152,7 @@ Leq(I, q1, q2) == IF I.family = "knapsack" THEN q1 <= q2 ELSE q1 \subseteq q2
 WellFormed(I, HT) ==
   /\ I.n >= 0
   /\ \A q1, q2 \in Univ(I) : Leq(I, q1, q2) =>
-        IF StaticOrder(I) THEN \A d \in 0..I.n : HT[d + 1][q1] <= HT[d + 1][q2] ELSE HT[q1] <= HT[q2]
+        IF StaticOrder(I) THEN \A d \in 0..I.n : Plus(HT[d + 1][q1], Phi(I, d, q1)) <= Plus(HT[d + 1][q2], Phi(I, d, q2)) ELSE HT[q1] <= HT[q2]
+  /\ (HasPot(I) => StaticOrder(I) /\ I.with_depth /\ ~I.long_arcs /\ I.dom = "none" /\ \A e \in DOMAIN I.pot[I.n + 1] : I.pot[I.n + 1][e] = 0)
   /\ (I.rub # "none" => I.slack >= 0)
 =============================================================================
